@@ -4,7 +4,11 @@
  *   (c) session id allocation (_nextSessionId++) */
 #define IORA_TCP_CUSTOM_ENGINE
 #include "iora_tcp_env.h"
-#include "bounded.h"
+#ifdef SD_WITNESS
+#include "witness.h"      /* unbounded: witness session / fd / queued connect, loops closed by loop contracts */
+#else
+#include "bounded.h"      /* bounded cross-check: concrete arrays */
+#endif
 
 typedef struct TcpEngine {
   TransportConfig _config; AtomicStats _atomicStats; int _epollFd, _eventFd, _timerFd;
@@ -14,12 +18,27 @@ typedef struct TcpEngine {
 } TcpEngine;
 
 /* ---- witnesses: one arbitrary session id and one arbitrary fd; the stubs count the events that concern them ---- */
-SessionId G_WSID; int G_WFD;
+#ifndef SD_WITNESS
+SessionId G_WSID; int G_WFD; SSL *G_WSSL; Session *G_WSESS;
+#endif
+unsigned G_wssl_shut_calls, G_wssl_free_calls, G_wssl_shut_seq, G_wssl_free_seq;
+unsigned G_wssl_shut_before_free, G_wfd_del_before_close, G_wssl_done_before_close;      /* 0/1: ordering of the witness events, decided when they happen (unsigned: a havocked _Bool has no canonical value) */
+#ifdef SD_WITNESS
+/* unbounded build: "other" SSL objects are abstract; only the witness object is tracked (used after free = obligation) */
+static inline int iora_SSL_shutdown_w(SSL *ssl) { IORA_ASSERT(ssl != 0, "SSL_shutdown(): non-null SSL object"); IORA_ASSERT(ssl != G_WSSL || G_wssl_free_calls == 0, "SSL_shutdown(): object not freed yet");
+  G_errno = nondet_int(); ++G_seq; if (ssl == G_WSSL) { if (G_wssl_shut_calls < 0x7fffffffu) G_wssl_shut_calls++; } return nondet_int(); }
+static inline void iora_SSL_free_w(SSL *ssl) { IORA_ASSERT(ssl != G_WSSL || G_wssl_free_calls == 0, "SSL_free(): object freed once"); ++G_seq;
+  if (ssl == G_WSSL) { G_wssl_shut_before_free = (G_wssl_shut_calls == 1) ? 1u : 0u; if (G_wssl_free_calls < 0x7fffffffu) G_wssl_free_calls++; } }
+#else
+static inline int iora_SSL_shutdown_w(SSL *ssl) { int r = iora_SSL_shutdown(ssl); if (ssl == G_WSSL) { if (G_wssl_shut_calls < 0x7fffffffu) G_wssl_shut_calls++; G_wssl_shut_seq = G_seq; } return r; }
+static inline void iora_SSL_free_w(SSL *ssl) { iora_SSL_free(ssl); if (ssl == G_WSSL) { G_wssl_shut_before_free = (G_wssl_shut_calls == 1) ? 1u : 0u; if (G_wssl_free_calls < 0x7fffffffu) G_wssl_free_calls++; G_wssl_free_seq = G_seq; } }
+#endif
 unsigned G_cb_calls, G_cbw_calls;            /* close callbacks: all / for the witness id */
-bool G_cbw_in_table;                          /* the witness id was still in _sessions when its close callback ran (observation) */
+unsigned G_cbw_in_table;                          /* the witness id was still in _sessions when its close callback ran (observation) */
 unsigned G_wfd_close_calls, G_wfd_del_calls, G_wfd_close_seq, G_wfd_del_seq;
 TransportError G_cbw_why;
-static inline int iora_close_w(int fd) { int r = iora_close(fd); if (fd == G_WFD) { if (G_wfd_close_calls < 0x7fffffffu) G_wfd_close_calls++; G_wfd_close_seq = G_seq; } return r; }
+static inline int iora_close_w(int fd) { int r = iora_close(fd); if (fd == G_WFD) { G_wfd_del_before_close = (G_wfd_del_calls == 1) ? 1u : 0u; G_wssl_done_before_close = (G_WSSL == 0 || (G_wssl_shut_calls == 1 && G_wssl_free_calls == 1)) ? 1u : 0u;
+  if (G_wfd_close_calls < 0x7fffffffu) G_wfd_close_calls++; G_wfd_close_seq = G_seq; } return r; }
 static inline int iora_epoll_ctl_w(int epfd, int op, int fd, epoll_event *ev)
 { int r = iora_epoll_ctl(epfd, op, fd, ev); if (fd == G_WFD && op == EPOLL_CTL_DEL) { if (G_wfd_del_calls < 0x7fffffffu) G_wfd_del_calls++; G_wfd_del_seq = G_seq; } return r; }
 
@@ -35,8 +54,7 @@ static inline void iora_cb_onClose(TcpEngine *self, SessionId sid, TransportErro
   if (sid == G_WSID)
   {
     if (G_cbw_calls < 0x7fffffffu) G_cbw_calls++;
-    G_cbw_why = why; G_cbw_in_table = 0;
-    for (size_t i = 0; i < IORA_NS; i++) if (i < self->_sessions.n && self->_sessions.v[i]->id == sid) G_cbw_in_table = 1;
+    G_cbw_why = why; G_cbw_in_table = iora_smapN_lookup(&self->_sessions, sid) != 0 ? 1u : 0u;
   }
 }
 bool G_sd_cleared;               /* this shutdownDrain has cleared the table */
@@ -44,8 +62,7 @@ bool G_sd_cleared;               /* this shutdownDrain has cleared the table */
 static inline void TcpEngine_sessions_clear(TcpEngine *self)
 {
   IORA_ASSERT(self->_sessionRwMutex.held, "LK3 _sessions is modified with _sessionRwMutex held (unique lock)");
-  for (size_t i = 0; i < IORA_NS; i++) if (i < self->_sessions.n) free(self->_sessions.v[i]);
-  self->_sessions.n = 0; G_sd_cleared = 1;
+  iora_smapN_destroy_all(&self->_sessions); G_sd_cleared = 1;
 }
 /* process(): the final drain of the command queue. Its ORDER inside shutdownDrain is an obligation (SD-O): it must run before this
  * shutdownDrain has closed any session and before the table is cleared - a command executed later (a queued Connect runs doConnect: new
@@ -53,26 +70,34 @@ static inline void TcpEngine_sessions_clear(TcpEngine *self)
  * insert one new open session (fresh id G_proc_sid, fd G_proc_fd, with its fd tag, gauge + 1) - so a drain that runs after the close loop also
  * fails "table empty / gauge zero / every announced id closed". Commands that arrive AFTER it (other threads, close callbacks) are the
  * nondeterministic content of _cmds at entry, which it does not consume. */
+#ifdef SD_WITNESS
+#define IORA_SET_WITNESS(s) do { G_WSESS = (s); G_W0 = *(s); } while (0)
+#define IORA_TABLES_HAVE_ROOM(self) ((self)->_sessions.n < SIZE_MAX && (self)->_fdTags.n < SIZE_MAX)
+#else
+#define IORA_SET_WITNESS(s) do { G_WSESS = (s); } while (0)
+#define IORA_TABLES_HAVE_ROOM(self) ((self)->_sessions.n < IORA_NS && (self)->_fdTags.n < IORA_NT)
+#endif
 unsigned G_proc_calls; bool G_proc_inserted; SessionId G_proc_sid; int G_proc_fd; bool IORA_PROC_MAY_INSERT;
 static inline void TcpEngine_process(TcpEngine *self)
 {
   IORA_ASSERT(!G_sd_cleared && G_cb_calls == 0 && G_fdclose_calls == 0,
               "SD-O the final process() of the command queue runs BEFORE shutdownDrain closes any session or clears the table (a Connect executed later is never closed)");
   if (G_proc_calls < 0x7fffffffu) G_proc_calls++;
-  if (IORA_PROC_MAY_INSERT && !G_proc_inserted && self->_sessions.n < IORA_NS && self->_fdTags.n < IORA_NT && nondet_bool())
+  if (IORA_PROC_MAY_INSERT && !G_proc_inserted && IORA_TABLES_HAVE_ROOM(self) && nondet_bool())
   {
     Session *s = malloc(sizeof(Session)); __CPROVER_assume(s != 0);
     Session z = {0}; *s = z; s->id = G_proc_sid; s->fd = G_proc_fd; s->connectPending = 1;
-    self->_sessions.v[self->_sessions.n++] = s;
+    if (s->id == G_WSID) IORA_SET_WITNESS(s);
+    iora_smapN_emplace(&self->_sessions, s->id, s);
     Tag *t = malloc(sizeof(Tag)); __CPROVER_assume(t != 0); t->isListener = 0; t->lst = 0; t->sess = s;
-    self->_fdTags.fd[self->_fdTags.n] = s->fd; self->_fdTags.v[self->_fdTags.n] = t; self->_fdTags.n++;
+    iora_tmapN_emplace(&self->_fdTags, s->fd, t);
     self->_atomicStats.sessionsCurrent++;
     G_proc_inserted = 1;
   }
 }
 static inline void TcpEngine_freeTls(TcpEngine *self) { (void)self; }
 unsigned G_promise_sets;
-static inline void iora_promise_set(iora_promise *p, bool v) { if (p->set_calls < 1000) p->set_calls++; p->value = v; if (G_promise_sets < 0x7fffffffu) G_promise_sets++; }
+static inline void iora_promise_set(iora_promise *p, bool v) { IORA_ASSERT(!v && p->set_calls == 0, "SD-E a pending listener promise is failed (set_value(false)), once"); if (p->set_calls < 1000) p->set_calls++; p->value = v; if (G_promise_sets < 0x7fffffffu) G_promise_sets++; }
 
 /* ---- (b) doConnect blocks ---- */
 typedef struct { SessionId sid; int host; uint16_t port; TlsMode tls; } ConnectReq;     /* host name: opaque */
@@ -123,8 +148,54 @@ static inline void TcpEngine_closeNow(TcpEngine *self, Session *s, TransportErro
   if (self->_cbs.onClose) iora_cb_onClose(self, sid, why, msg, 0, tlsErr);
 }
 
+#ifdef SD_WITNESS
+/* ---- loop contracts of shutdownDrain over the witness containers (unbounded number of sessions, listeners, queued commands) ---- */
+#define SD_EVT_GHOSTS G_errno, IORA_EPOLL_GHOSTS, G_wfd_del_calls, G_wfd_del_seq, G_wfd_close_calls, G_wfd_close_seq, G_wfd_del_before_close, G_wssl_done_before_close, \
+  G_fdclose_calls, G_fdclose_seq, G_fdclose_fd, \
+  G_wssl_shut_calls, G_wssl_free_calls, G_wssl_shut_seq, G_wssl_free_seq, G_wssl_shut_before_free
+#define SD_CB_GHOSTS G_cb_calls, G_cbw_calls, G_cbw_why, G_cbw_in_table
+#define SD_WSSL_DONE (G_WSSL == NULL ? (G_wssl_shut_calls == 0 && G_wssl_free_calls == 0) : (G_wssl_shut_calls == 1 && G_wssl_free_calls == 1 && G_wssl_shut_before_free == 1 && G_wssl_done_before_close == 1))
+/* the witness session has been closed by the loop: flag, one close notification, fd deregistered then closed once, SSL object shut down then freed */
+#define SD_W_CLOSED(self) (G_cbw_calls == ((self)->_cbs.onClose ? 1u : 0u) && G_wfd_close_calls == 1 && G_wfd_del_calls == 1 && G_wfd_del_before_close == 1 && SD_WSSL_DONE)
+#define SD_W_UNTOUCHED (G_cbw_calls == 0 && G_wfd_close_calls == 0 && G_wfd_del_calls == 0 && G_wssl_shut_calls == 0 && G_wssl_free_calls == 0)
+/* 1: collect the raw pointers - the witness keeps its position */
+#define IORA_LOOP_TcpEngine_shutdownDrain_1 IORA_LC( \
+  __CPROVER_assigns(iora_i1, toClose, __CPROVER_object_whole(G_OTHER_SESS)) \
+  __CPROVER_loop_invariant(iora_i1 <= self->_sessions.n && toClose.n == iora_i1 && toClose.has == (self->_sessions.has && self->_sessions.gpos < iora_i1)) \
+  __CPROVER_loop_invariant(!toClose.has || (toClose.gpos == self->_sessions.gpos && toClose.val == G_WSESS)) \
+  __CPROVER_decreases(self->_sessions.n - iora_i1))
+/* 2: the close loop - gauge and closed counter follow the index; the witness is untouched before its position and closed exactly once after it */
+#define IORA_LOOP_TcpEngine_shutdownDrain_2 IORA_LC( \
+  __CPROVER_assigns(iora_i2, __CPROVER_object_whole(G_OTHER_SESS), __CPROVER_object_whole(G_WSESS), self->_atomicStats.closed, self->_atomicStats.sessionsCurrent, self->_cbMutex.held, \
+                    G_seq, SD_EVT_GHOSTS, SD_CB_GHOSTS) \
+  __CPROVER_loop_invariant(iora_i2 <= toClose.n && !self->_cbMutex.held) \
+  __CPROVER_loop_invariant(self->_atomicStats.sessionsCurrent == toClose.n - iora_i2 && self->_atomicStats.closed - __CPROVER_loop_entry(self->_atomicStats.closed) == iora_i2) \
+  __CPROVER_loop_invariant((toClose.has && iora_i2 > toClose.gpos) ? SD_W_CLOSED(self) \
+                           : SD_W_UNTOUCHED) \
+  __CPROVER_decreases(toClose.n - iora_i2))
+#define IORA_LOOP_TcpEngine_shutdownDrain_3 IORA_LC( \
+  __CPROVER_assigns(iora_i3, listenersToClose, __CPROVER_object_whole(G_OTHER_LST)) \
+  __CPROVER_loop_invariant(iora_i3 <= self->_listeners.n && listenersToClose.n == iora_i3) \
+  __CPROVER_decreases(self->_listeners.n - iora_i3))
+/* 4: closing the listeners only removes (other) tags and never touches the witness fd */
+#define IORA_LOOP_TcpEngine_shutdownDrain_4 IORA_LC( \
+  __CPROVER_assigns(iora_i4, __CPROVER_object_whole(G_OTHER_LST), self->_fdTags.n, G_seq, SD_EVT_GHOSTS) \
+  __CPROVER_loop_invariant(iora_i4 <= listenersToClose.n && self->_fdTags.n <= __CPROVER_loop_entry(self->_fdTags.n)) \
+  __CPROVER_loop_invariant(G_wfd_close_calls == __CPROVER_loop_entry(G_wfd_close_calls) && G_wfd_del_calls == __CPROVER_loop_entry(G_wfd_del_calls) \
+                           && G_wfd_del_before_close == __CPROVER_loop_entry(G_wfd_del_before_close) && G_wssl_done_before_close == __CPROVER_loop_entry(G_wssl_done_before_close) \
+                           && G_wssl_shut_calls == __CPROVER_loop_entry(G_wssl_shut_calls) && G_wssl_free_calls == __CPROVER_loop_entry(G_wssl_free_calls) \
+                           && G_wssl_shut_before_free == __CPROVER_loop_entry(G_wssl_shut_before_free)) \
+  __CPROVER_decreases(listenersToClose.n - iora_i4))
+/* 5: the residual commands - the queued connect that carries the witness id has been reported exactly once as soon as its position is passed (SD-2) */
+#define IORA_LOOP_TcpEngine_shutdownDrain_5 IORA_LC( \
+  __CPROVER_assigns(iora_i5, residual.other, G_other_promise, self->_cbMutex.held, G_seq, SD_CB_GHOSTS, G_promise_sets) \
+  __CPROVER_loop_invariant(iora_i5 <= residual.n && !self->_cbMutex.held) \
+  __CPROVER_loop_invariant(G_cbw_calls == __CPROVER_loop_entry(G_cbw_calls) + ((residual.has && iora_i5 > residual.gpos && self->_cbs.onClose) ? 1u : 0u)) \
+  __CPROVER_decreases(residual.n - iora_i5))
+#else
 #define IORA_LOOP_TcpEngine_shutdownDrain_1
 #define IORA_LOOP_TcpEngine_shutdownDrain_2
 #define IORA_LOOP_TcpEngine_shutdownDrain_3
 #define IORA_LOOP_TcpEngine_shutdownDrain_4
 #define IORA_LOOP_TcpEngine_shutdownDrain_5
+#endif
